@@ -2,15 +2,30 @@
 
 MC      MC_Truncate: abstract algorithm (records whose length depends on names already seen) satisfies the
         relation TruncOK for every small message x size, and TruncOK pins the result down (Unique);
-        three broken algorithm variants MUST violate it (non-vacuity).
+        four broken algorithm variants MUST violate it (non-vacuity; "optover" = the OPT measured one octet
+        too long).
 GEN     Gen_Truncate enumerates (reply shape, size selector) cases; harness `truncate exec` builds each reply,
         resolves the selector with the real Pack (exact packed length of each prefix -1/0/+1, ...), runs the
         real Truncate and records facts.
+GEN-OPTS  Gen_Truncate in mode "opts" (gen_opts): the OPT record is drawn from the universe of EDNS0 options the
+        library has - client subnet of every family x source netmask {0,1,7,8,9,15,16,17,20,24,25,31,32 /
+        0,1,8,48,56,63,64,65,120,127,128} and family 0, NSID, COOKIE, UL (with/without key lease), LLQ, DAU/DHU/N3U,
+        EXPIRE (set/empty), TCP keep-alive (zero timeout packs nothing), PADDING, EDE, ESU, LOCAL, REPORTING,
+        ZONEVERSION with boundary parameters; alone, before and after a neighbour, three in one OPT (253 option
+        lists) - i.e. options whose packed length is not a fixed function of the struct's field lengths, while
+        Truncate reserves room for the OPT with Len().  Every option list x every size selector (packed length of
+        every prefix -1/0/+1, uncompressed length -1/0/+1, 512) runs on the shard's share of reply bodies; the
+        oracle is the same TruncOK (fitskeeps / greedy / fitsafter) judged by TLC.  Catches seed C09-20
+        (OPT.len counts the full address of a client subnet: key truncate/fitskeeps:plain:OPT(SUBNET)) and mutant
+        optexpire.diff.  A finding caused by the OPT is keyed by the option kinds whose Len() exceeds what Pack
+        writes (harness overCause/overOptions), so it is not hidden behind the known NSEC3 / escapes keys.
 TV      Trace_Truncate judges every fact line with TruncOK (also for `truncate record`: random replies of
-        ~23 RR types with escapes, bitmaps, up to 100 records, random/boundary sizes).
+        ~23 RR types with escapes, bitmaps, up to 100 records, random/boundary sizes; half of the OPTs carry one
+        to three random options of the same option universe, e.g. every source netmask 0..32 / 0..128).
 Mutants (checks/mutants/C09): ge.diff (l >= size) GEN; noopt.diff (OPT length not subtracted) GEN;
         tcanswer.diff (TC only when Answer is cut) GEN+TV; nofloor.diff (512 floor removed) GEN;
-        laterkept.diff (later section walked after a cut) GEN+TV.
+        laterkept.diff (later section walked after a cut) GEN+TV; optexpire.diff (OPT.len counts 4 value octets for
+        the empty EXPIRE option) GEN-OPTS (+TV by chance).
 """
 import os, json
 import vp
@@ -18,8 +33,9 @@ import vp
 
 def key_of(e, clause):
     cls = "escapes" if e.get("esc") else ("plain" if e.get("plain") else "noescape-othertypes")
-    if clause == "fitskeeps" and cls != "escapes" and e.get("over"):
-        # a fitting reply was cut because Len() over-estimates: keep distinct causes apart (types whose Len() is off > victim)
+    if clause in ("fitskeeps", "greedy") and cls != "escapes" and e.get("over"):
+        # a fitting reply (greedy: a fitting record) was cut because Len() over-estimates: keep distinct causes apart
+        # (types whose Len() is off > victim; for an OPT the option kinds, e.g. OPT(SUBNET))
         return "truncate/%s:%s:%s" % (clause, cls, e["over"])
     return "truncate/%s:%s" % (clause, cls)
 
@@ -46,7 +62,7 @@ def judge(ctx, path, label):
                     e["size"], c, {k: v for k, v in e.items() if k != "wire"}), small)
 
 
-def gen(ctx, binp, nshards, shards):
+def gen(ctx, binp, nshards, shards, more=()):
     def one(sh):
         r, vecs = ctx.tlc_vectors("Gen_Truncate", workers=1, xmx="3g", timeout=3000,
                                   consts={"MaxAn": 2, "MaxNs": 1, "MaxAr": 2, "Shard": sh, "NShards": nshards})
@@ -54,7 +70,30 @@ def gen(ctx, binp, nshards, shards):
         s = ctx.run_json(binp, ["exec", os.path.join(r.dir, "vectors.ndjson"), facts])
         vp.absorb(ctx, s, traces=False)
         judge(ctx, facts, "gen")
-    vp.parallel([lambda sh=sh: one(sh) for sh in shards], maxpar=8)
+    vp.parallel(list(more) + [lambda sh=sh: one(sh) for sh in shards], maxpar=8)
+
+
+K1, INNER_O = 43, 2304      # Gen_Truncate: K1, and the range of InnerO (one section/position/flags combination per residue)
+
+
+def gen_opts(ctx, binp, k2, shards):
+    """Mode "opts" of Gen_Truncate: every option list x every size selector on the shard's share of reply bodies."""
+    def one(sh):
+        for attempt in range(8):    # a share without any reply body (not seen so far) says nothing: take the next one
+            r, vecs = ctx.tlc_vectors("Gen_Truncate", workers=1, xmx="3g", timeout=3000,
+                                      consts={"MaxAn": 2, "MaxNs": 1, "MaxAr": 2, "Shard": (sh + attempt) % (K1 * k2),
+                                              "NShards": K1 * k2, "Mode": '"opts"'})
+            if r.distinct > 0:
+                break
+        else:
+            raise vp.Infra("Gen_Truncate mode opts: eight consecutive empty shards")
+        facts = os.path.join(r.dir, "facts.ndjson")
+        s = ctx.run_json(binp, ["exec", os.path.join(r.dir, "vectors.ndjson"), facts])
+        if s.get("evaluations", 0) != r.distinct:
+            raise vp.Infra("truncate exec ran %s of %d option cases" % (s.get("evaluations"), r.distinct))
+        vp.absorb(ctx, s, traces=False)
+        judge(ctx, facts, "gen-opts")
+    return [lambda sh=sh: one(sh) for sh in shards]
 
 
 def rec(ctx, binp, n, nproc):
@@ -69,7 +108,7 @@ def rec(ctx, binp, n, nproc):
 def mc(ctx, full):
     c = {} if not full else {"MaxNs": 2, "MaxAr": 2}
     ctx.tlc("MC_Truncate", consts=c or None, timeout=3000)
-    for variant in ("ge", "noopt", "tcanswer"):
+    for variant in ("ge", "noopt", "optover", "tcanswer"):
         r = ctx.tlc("MC_Truncate", consts={"Variant": '"%s"' % variant}, must_pass=False, count=False, workers=4)
         if r.ok or "Invariant Holds is violated" not in r.out:
             raise vp.Infra("broken variant %s of the truncation algorithm satisfies TruncOK: the relation is vacuous" % variant)
@@ -79,11 +118,13 @@ def run(ctx):
     binp = ctx.build("truncate")
     if ctx.quick:
         mc(ctx, False)
-        gen(ctx, binp, 817, [(ctx.seed * 7) % 817, (ctx.seed * 7 + 77) % 817, (ctx.seed * 7 + 401) % 817])   # 817 = 43 * 19
+        gen(ctx, binp, 817, [(ctx.seed * 7) % 817, (ctx.seed * 7 + 77) % 817, (ctx.seed * 7 + 401) % 817],   # 817 = 43 * 19
+            more=gen_opts(ctx, binp, INNER_O, [(ctx.seed * 7919) % (K1 * INNER_O)]))
         rec(ctx, binp, 5000, 4)
     else:
         mc(ctx, True)
-        gen(ctx, binp, 301, [(ctx.seed + 19 * k) % 301 for k in range(16)])   # 301 = 43 * 7
+        gen(ctx, binp, 301, [(ctx.seed + 19 * k) % 301 for k in range(16)],   # 301 = 43 * 7
+            more=gen_opts(ctx, binp, INNER_O // 8, [(ctx.seed * 7919 + 4099 * k) % (K1 * (INNER_O // 8)) for k in range(6)]))
         rec(ctx, binp, 40000, 16)
     ctx.assumptions += [
         "packed lengths are measured with the real Pack (its fidelity is property C01/C04/C08)",
@@ -91,7 +132,8 @@ def run(ctx):
         "replies carrying a TSIG record are outside the statement",
     ]
     return ctx.finish(rule="cases: all replies with <=2 answer, <=1 authority, <=2 additional records over 6 record shapes x question section {one, none, two, one of 181 octets} x OPT "
-                      "none/bare/with options/with 300 octets of padding at every position x TC x Compress x size selectors {0,511,512,513,65535, packed length of "
+                      "none/bare/with options/with 300 octets of padding/with each of 253 lists of EDNS0 options (all option kinds, client subnets of every "
+                      "family x boundary netmask) at every position x TC x Compress x size selectors {0,511,512,513,65535, packed length of "
                       "every prefix -1/0/+1, uncompressed length -1/0/+1} (sharded sample per run), plus random replies over 23 RR types. "
                       "non-trivial = at least one record was cut; distinct by (shape, size)")
 
